@@ -7,6 +7,7 @@
 //        four Dynamics realizations: fresh; after a u change; after a q change; after a u change.  Prints per realization
 //        TOT <mix> <threads> <when> <r> <hex doubles...>     rigid body forces of every body and all mobility forces
 //        CALL <mix> <threads> <when> <r> <elem> <isSystemArray>   one line per calcForce call of a Custom element
+//   REF <mixid>                                   the same mix with no Custom element declaring parallel / position-only, 1 thread: REF <mix> <r> <hex...>
 //   CON <mixid>                                   per-element contributions at the four states: CON <mix> <r> <elem> <hex...>
 //   PROBE <threads> <when> <withpos> <withpar>     overlap probe (see below): prints PROBE ... overlap=<0/1> sysarray=<0/1> changed=<0/1> otherfin=<n>
 // Overlap probe: a non-parallel velocity-dependent Custom element (part of task 0) adds its force, lets the other workers
@@ -34,8 +35,10 @@ static const void* g_sysArray = nullptr;
 
 class CF : public Force::Custom::Implementation {
 public:
-    CF(const SimbodyMatterSubsystem& m, MobilizedBodyIndex b, int e, bool par, bool pos, Real c) : matter(m), b(b), e(e), par(par), pos(pos), c(c) {}
-    bool dependsOnlyOnPositions() const override { return pos; }
+    // pos = the force law uses positions only; declPos / par = what the element DECLARES (the reference run declares nothing)
+    CF(const SimbodyMatterSubsystem& m, MobilizedBodyIndex b, int e, bool par, bool pos, Real c, bool declared = true)
+    :   matter(m), b(b), e(e), par(par && declared), pos(pos), declPos(pos && declared), c(c) {}
+    bool dependsOnlyOnPositions() const override { return declPos; }
     bool shouldBeParallelIfPossible() const override { return par; }
     void calcForce(const State& s, Vector_<SpatialVec>& bf, Vector_<Vec3>&, Vector& mf) const override {
         { std::lock_guard<std::mutex> g(g_obsMutex); g_obs.push_back({e, (const void*)&bf == g_sysArray ? 1 : 0}); }
@@ -46,7 +49,7 @@ public:
         for (int i = 0; i < mf.size(); ++i) mf[i] += 1e-2 * c * (i + 1) * (pos ? s.getQ()[i % s.getNQ()] : s.getU()[i]);
     }
     Real calcPotentialEnergy(const State&) const override { return 0; }
-    const SimbodyMatterSubsystem& matter; MobilizedBodyIndex b; int e; bool par, pos; Real c;
+    const SimbodyMatterSubsystem& matter; MobilizedBodyIndex b; int e; bool par, pos, declPos; Real c;
 };
 
 struct El { char kind; int par, pos; double coef; };
@@ -57,7 +60,7 @@ struct Sys {
     MultibodySystem sys; SimbodyMatterSubsystem matter; GeneralForceSubsystem forces; std::vector<MobilizedBody> body; std::vector<Force> el;
     Sys() : matter(sys), forces(sys) {}
 };
-static Sys* build(const Mix& mx, int threads, int when, State& s, Force::Custom::Implementation* extra = nullptr) {
+static Sys* build(const Mix& mx, int threads, int when, State& s, Force::Custom::Implementation* extra = nullptr, bool declared = true) {
     Sys* S = new Sys();
     Body::Rigid bodyA(MassProperties(1.3, Vec3(0.1, 0.2, -0.15), Inertia(Vec3(0.1, 0.2, -0.15), 1.3) + Inertia(0.5, 0.6, 0.7, 0.01, 0.02, -0.03)));
     S->body.push_back(S->matter.Ground());
@@ -67,7 +70,7 @@ static Sys* build(const Mix& mx, int threads, int when, State& s, Force::Custom:
     for (int e = 0; e < (int)mx.els.size(); ++e) {
         const El& x = mx.els[e]; MobilizedBody& bd = S->body[1 + e % 3]; const Vec3 s1(0.3, 0.2 + 0.1 * e, 0.1), s2(0.1, -0.05 * e, 0.2);
         switch (x.kind) {
-        case 'C': S->el.push_back(Force::Custom(S->forces, new CF(S->matter, bd.getMobilizedBodyIndex(), e, x.par != 0, x.pos != 0, x.coef))); break;
+        case 'C': S->el.push_back(Force::Custom(S->forces, new CF(S->matter, bd.getMobilizedBodyIndex(), e, x.par != 0, x.pos != 0, x.coef, declared))); break;
         case 'S': S->el.push_back(Force::TwoPointLinearSpring(S->forces, S->matter.Ground(), s1, bd, s2, 10 * x.coef, 0.5)); break;
         case 'D': S->el.push_back(Force::TwoPointLinearDamper(S->forces, S->matter.Ground(), s1, bd, s2, 2 * x.coef)); break;
         case 'K': S->el.push_back(Force::ConstantForce(S->forces, bd, s2, Vec3(0.5 * x.coef, -x.coef, 0.25))); break;
@@ -146,6 +149,14 @@ int main() {
                 for (const Obs& o : g_obs) printf("CALL %d %d %d %d %d %d\n", id, th, when, r, o.elem, o.isSys);
             }
             printf("THREADS %d %d %d %d\n", id, th, when, S->forces.getNumberOfThreads());
+            delete S;
+        }
+        else if (op == "REF") {   // the same elements with nothing declared parallel / position-only, one thread: REF <mix> <r> <hex...>
+            int id; in >> id; State s; Sys* S = build(g_mix[id], 1, 0, s, nullptr, false); g_sysArray = nullptr;
+            for (int r = 0; r < 4; ++r) {
+                perturb(s, r); S->sys.realize(s, Stage::Dynamics);
+                printf("REF %d %d", id, r); printVec(S->sys.getRigidBodyForces(s, Stage::Dynamics), S->sys.getMobilityForces(s, Stage::Dynamics));
+            }
             delete S;
         }
         else if (op == "CON") {
